@@ -85,6 +85,8 @@ func tabHas(t *vTable, k int) bool  { return VerifTabHas(t, k) }
 //@   ensures[lowest-free] forall k int :: 0 <= k && k < int(key) ==> old[bool](tabHas(t, k))
 //@   ensures[others-unchanged] forall k int :: k != int(key) ==> tabHas(t, k) == old[bool](tabHas(t, k))
 //@   ensures[items-unchanged] forall k int :: 0 <= k && k < old(len(t.items)) && k != int(key) ==> t.items[k] == old[*vItem](t.items[k])
+//@   ensures[arrays] (verif_fresh_slice(t.masks) || verif_same_array(t.masks, old(t.masks))) && (verif_fresh_slice(t.items) || verif_same_array(t.items, old(t.items)))
+//@   ensures[grows-by-at-most-one] len(t.masks) <= old(len(t.masks)) + 1
 //@   modifies t.masks, t.items, elems(t.masks), elems(t.items)
 //@   loop 0 (offset int)
 //@     invariant tabInv(t) && 0 <= offset && offset <= len(t.masks) && len(t.masks) <= old[int](len(t.masks)) + 1
